@@ -17,16 +17,30 @@ What it adds to the constant-propagating interpreter:
                         (array, permutation, axis);
   numeric evaluation    of every registered *formula* at a rational/float point (used for sign conventions and witnesses).
 
+  python semantics      full calling convention (positional / keyword / default / *args / **kwargs / keyword-only), starred displays,
+                        comprehensions, for / while / with / try, zip / enumerate / map / sum / any / all / functools / itertools /
+                        operator, NamedTuple / dataclass records (`_replace`, `_asdict`, unpacking), plain classes with __init__ and
+                        methods, dictionaries, `functools.partial` (a value that can be unwrapped), module level `f.defjvp(rule)`
+                        registrations (recorded);
+  arrays                numpy broadcasting, newaxis, element-wise comparisons (`CondArr`) with `np.where` / `&` / `|` / `~` / all / any,
+                        np.select, meshgrid, argmax / argmin as a symbolic index (`IdxSel`), entries of a symbolically sorted array as
+                        nested selections, vmap over axis 0 / 1 with out_axes, static lax.fori_loop / scan / switch, 2x2 / 3x3 inverse;
+  pytrees               `tree_flatten`: leaves of tuples / lists / dictionaries (sorted keys, as jax) / records / objects and a rebuild
+                        function (loop carries, argument lists whose roles are read by value);
+  call stack            `stack` (functions being interpreted) and `call_hook` (every call of a repository function), used by rules to
+                        find a function by its dynamic role instead of its name.
+
 Every registry is keyed by the canonical text of exact normal forms, never by names of program variables.
 """
 from __future__ import annotations
 
 import ast
+import itertools
 import math
 from fractions import Fraction
 
 from optilint.expr import Rat, Poly, simplify
-from optilint.tensoreval import (Interp, Dual, Arr, Env, Closure, PyFunc, Ext, Unknown, EvalError,
+from optilint.tensoreval import (Interp, Dual, Arr, Env, Closure, PyFunc, Ext, Unknown, EvalError, Record, Vmapped, Deriv, ReturnSignal,
                                  _A, R, rat_const, rat_sign, rat_is_zero, sum_d, d_fun, d_pow)
 
 
@@ -138,9 +152,130 @@ class Gather:
 
 
 class VmapAxes:
-    """jax.vmap(f, in_axes): maps over the leading axis of the arguments whose in_axes entry is 0"""
-    def __init__(self, fn, axes):
-        self.fn, self.axes = fn, axes
+    """jax.vmap(f, in_axes, out_axes): maps over the given axis (0, or 1 of a matrix) of the arguments whose in_axes entry is not None"""
+    def __init__(self, fn, axes, out_axes=0):
+        self.fn, self.axes, self.out_axes = fn, axes, out_axes
+
+
+class Partial(PyFunc):
+    """functools.partial(fn, *args, **kwargs): a callable value that can be unwrapped (`inner`, `args`, `kwargs`)"""
+    def __init__(self, fn, args, kwargs):
+        super().__init__("partial", self._apply)
+        self.inner, self.args, self.kwargs = fn, list(args), dict(kwargs)
+
+    def _apply(self, it, a, k):
+        return it.call(self.inner, self.args + list(a), dict(self.kwargs, **k))
+
+    def __repr__(self):
+        return f"<partial of {self.inner!r}>"
+
+
+class PermElem:
+    """k-th entry of a sorting permutation (np.argsort(base)[k]): an index that is only known symbolically"""
+    def __init__(self, perm, k):
+        self.perm, self.k = perm, k
+
+    def __repr__(self):
+        return f"{self.perm!r}[{self.k}]"
+
+
+class Obj:
+    """instance of a plain repository class (one with an __init__): attribute dictionary + the class scope for methods and properties"""
+    def __init__(self, cls, attrs=None):
+        self.cls, self.attrs = cls, dict(attrs or {})
+
+    def method(self, name):
+        for c in self.cls.children:
+            if c.kind == "function" and c.name == name:
+                return c
+        return None
+
+    def __repr__(self):
+        return f"<{self.cls.name} object>"
+
+
+class CondArr:
+    """array of conditions (python bools / SBool): the value of an element-wise comparison of arrays"""
+    def __init__(self, data, shape):
+        self.data, self.shape = list(data), tuple(shape)
+
+    @property
+    def ndim(self):
+        return len(self.shape)
+
+    def map(self, f):
+        return CondArr([f(x) for x in self.data], self.shape)
+
+    def as_arr(self):
+        """the same container with 0/1 placeholders (for index arithmetic only)"""
+        return Arr([Dual(i) for i in range(len(self.data))], self.shape)
+
+    def __repr__(self):
+        return f"conds{self.shape}"
+
+
+class IdxSel:
+    """an integer index that is only known symbolically: cases [(condition, integer)], mutually exclusive and exhaustive"""
+    def __init__(self, cases):
+        self.cases = list(cases)
+
+    def __repr__(self):
+        return "index{" + ", ".join(f"{c!r}: {k}" for c, k in self.cases) + "}"
+
+
+def broadcast_shape(s1, s2):
+    out = []
+    for k in range(1, max(len(s1), len(s2)) + 1):
+        a = s1[-k] if k <= len(s1) else 1
+        b = s2[-k] if k <= len(s2) else 1
+        if a != b and a != 1 and b != 1:
+            raise EvalError(f"shape mismatch {tuple(s1)} vs {tuple(s2)}")
+        out.append(max(a, b))
+    return tuple(reversed(out))
+
+
+def broadcast_data(data, shape, target):
+    """the entries of an array of shape `shape` broadcast to `target` (numpy rules), in C order"""
+    shape, target = tuple(shape), tuple(target)
+    if shape == target:
+        return list(data)
+    if len(shape) > len(target):
+        raise EvalError(f"cannot broadcast {shape} to {target}")
+    pad = (1,) * (len(target) - len(shape)) + shape
+    if any(d != t and d != 1 for d, t in zip(pad, target)):
+        raise EvalError(f"cannot broadcast {shape} to {target}")
+    strides, st = [], 1
+    for d in reversed(pad):
+        strides.append(st)
+        st *= d
+    strides = list(reversed(strides))
+    out = []
+    for ix in itertools.product(*[range(d) for d in target]):
+        off = 0
+        for i, d, stv in zip(ix, pad, strides):
+            if d != 1:
+                off += i * stv
+        out.append(data[off])
+    return out
+
+
+def is_callable_value(v):
+    return isinstance(v, (Closure, PyFunc, Ext, Vmapped, Deriv, VmapAxes)) or (isinstance(v, tuple) and len(v) == 3 and v[0] == "method") \
+        or (isinstance(v, Obj) and v.method("__call__") is not None)
+
+
+def callable_scope(f):
+    """the repository scope whose code a callable value finally runs (through partial / vmap / derivative wrappers), or None"""
+    for _ in range(8):
+        if isinstance(f, Closure):
+            return f.scope
+        if isinstance(f, Partial):
+            f = f.inner
+        elif isinstance(f, (Vmapped, VmapAxes, Deriv)):
+            f = f.fn
+        else:
+            return None
+    return None
 
 
 def proportional(p: Poly, q: Poly):
@@ -217,6 +352,10 @@ class SymInterp(Interp):
         self.bound_nodes = {}          # canonical text -> statement that bound it (for locations only)
         self.atom_nodes = {}           # registered atom -> statement being interpreted when it was created (for locations only)
         self._cur = None
+        self.stack = []                # qualified names of the repository functions being interpreted (innermost last)
+        self.call_hook = None          # callable(interp, closure, args, kwargs) invoked at every call of a repository function
+        self.max_loop = 200            # bound on the iterations of an interpreted python `while`
+        self.registrations = []        # (decorated function value, rule value) of every interpreted `f.defjvp(rule)`
         self._install()
 
     # ---- registries
@@ -312,9 +451,21 @@ class SymInterp(Interp):
         plain = lambda t: isinstance(t, (tuple, list)) and all(isinstance(x, (int, str)) and not isinstance(x, bool) for x in t)
         if plain(a) and plain(b) and isinstance(op, (ast.Eq, ast.NotEq)):      # shapes
             return (tuple(a) == tuple(b)) == isinstance(op, ast.Eq)
+        if isinstance(a, IdxSel) or isinstance(b, IdxSel):
+            if not isinstance(op, (ast.Eq, ast.NotEq)):
+                raise EvalError("ordering of a symbolic index")
+            sel_, other = (a, b) if isinstance(a, IdxSel) else (b, a)
+            k = self.as_int(other)
+            c = b_or([cc for cc, kk in sel_.cases if kk == k])
+            return c if isinstance(op, ast.Eq) else b_not(c)
         a, b = self.num(a), self.num(b)
         if isinstance(a, Arr) or isinstance(b, Arr):
-            raise EvalError("array comparison")
+            # element-wise comparison (numpy broadcasting): an array of conditions
+            sa, sb = (a.shape if isinstance(a, Arr) else ()), (b.shape if isinstance(b, Arr) else ())
+            shp = broadcast_shape(sa, sb)
+            xs = broadcast_data(a.data if isinstance(a, Arr) else [a], sa, shp)
+            ys = broadcast_data(b.data if isinstance(b, Arr) else [b], sb, shp)
+            return CondArr([self.compare(x, op, y) for x, y in zip(xs, ys)], shp)
         d = _A.norm(a.a - b.a)
         s = self.sign_of(d)
         decided = None
@@ -399,8 +550,8 @@ class SymInterp(Interp):
     def binop(self, op, a, b, env):
         if isinstance(op, ast.Mod) and isinstance(a, int) and isinstance(b, int) and not isinstance(a, bool) and not isinstance(b, bool) and b != 0:
             return a % b
-        if isinstance(op, ast.Pow) and isinstance(a, (Dual, Arr)) and self._is_half(b):
-            return self.np_call("sqrt", [a], {})
+        if isinstance(op, ast.Pow) and (isinstance(a, (Dual, Arr)) or isinstance(b, Dual)) and not isinstance(a, (bool, SBool)) and not isinstance(b, (bool, SBool, Arr)):
+            return self.np_call("power", [a, b], {})          # x**0.5 is sqrt(x); a symbolic exponent gives the same opaque power as np.power
         if isinstance(op, (ast.BitAnd, ast.BitOr, ast.BitXor)) and (isinstance(a, SBool) or isinstance(b, SBool)):
             if not all(isinstance(x, (bool, SBool)) for x in (a, b)):
                 raise EvalError("bit operation on a condition and a number")
@@ -409,8 +560,19 @@ class SymInterp(Interp):
             if isinstance(op, ast.BitOr):
                 return b_or([a, b])
             return b_or([b_and([a, b_not(b)]), b_and([b_not(a), b])])
+        if isinstance(op, (ast.BitAnd, ast.BitOr, ast.BitXor)) and (isinstance(a, CondArr) or isinstance(b, CondArr)):
+            a, b = self.cond_array(a), self.cond_array(b)
+            shp = broadcast_shape(a.shape, b.shape)
+            xs, ys = broadcast_data(a.data, a.shape, shp), broadcast_data(b.data, b.shape, shp)
+            f = {ast.BitAnd: lambda x, y: b_and([x, y]), ast.BitOr: lambda x, y: b_or([x, y]),
+                 ast.BitXor: lambda x, y: b_or([b_and([x, b_not(y)]), b_and([b_not(x), y])])}[type(op)]
+            return CondArr([f(x, y) for x, y in zip(xs, ys)], shp)
         if isinstance(a, Arr) and isinstance(b, Arr) and a.shape != b.shape and not isinstance(op, ast.MatMult) and a.size() != 1 and b.size() != 1:
-            a, b = self._broadcast(a, b)
+            try:
+                a, b = self._broadcast(a, b)
+            except EvalError:
+                shp = broadcast_shape(a.shape, b.shape)
+                a, b = Arr(broadcast_data(a.data, a.shape, shp), shp), Arr(broadcast_data(b.data, b.shape, shp), shp)
         env2 = Env(env.scope, env)
         env2.vars["__l"], env2.vars["__r"] = a, b
         return Interp.e_BinOp(self, ast.BinOp(left=ast.Name(id="__l", ctx=ast.Load()), op=op, right=ast.Name(id="__r", ctx=ast.Load())), env2)
@@ -436,9 +598,82 @@ class SymInterp(Interp):
         raise EvalError(f"shape mismatch {a.shape} vs {b.shape}")
 
     def e_Call(self, e, env):
-        if any(k.arg is None for k in e.keywords):
-            raise EvalError("call with **keywords")
         return super().e_Call(e, env)
+
+    # ---- python containers: starred displays, iteration over records / arrays / sorted arrays
+    def iterate(self, v):
+        """the items a python `for` would see"""
+        if isinstance(v, Arr):
+            if v.ndim == 0:
+                raise EvalError("iteration over a 0-d array")
+            return [v.index(i) for i in range(v.shape[0])]
+        if isinstance(v, Record):
+            return list(v.values)
+        if isinstance(v, CondArr):
+            if v.ndim == 0:
+                raise EvalError("iteration over a 0-d array")
+            return [self.getitem(v, i) for i in range(v.shape[0])]
+        if isinstance(v, Gather):
+            return self.gather_items(v)
+        if isinstance(v, Perm):
+            return [PermElem(v, k) for k in range(v.base.shape[0])]
+        if isinstance(v, (tuple, list)):
+            if len(v) == 3 and v and v[0] == "method":
+                raise EvalError("iteration over a bound method")
+            return list(v)
+        if isinstance(v, dict):
+            return list(v.keys())
+        if isinstance(v, str):
+            return list(v)
+        raise EvalError(f"iteration over {v!r}")
+
+    def _display(self, elts, env):
+        out = []
+        for x in elts:
+            if isinstance(x, ast.Starred):
+                out += self.iterate(self.eval(x.value, env))
+            else:
+                out.append(self.eval(x, env))
+        return out
+
+    def e_Tuple(self, e, env):
+        return tuple(self._display(e.elts, env))
+
+    def e_List(self, e, env):
+        return self._display(e.elts, env)
+
+    def e_Dict(self, e, env):
+        out = {}
+        for k, v in zip(e.keys, e.values):
+            if k is None:
+                d = self.eval(v, env)
+                if not isinstance(d, dict):
+                    raise EvalError("** of a value that is not a dictionary")
+                out.update(d)
+            else:
+                out[self.eval(k, env)] = self.eval(v, env)
+        return out
+
+    def e_NamedExpr(self, e, env):
+        v = self.eval(e.value, env)
+        self.assign(e.target, v, env)
+        return v
+
+    def _comp(self, e, env, make):
+        out = []
+
+        def rec(k, env_k):
+            if k == len(e.generators):
+                out.append(make(env_k))
+                return
+            g = e.generators[k]
+            for x in self.iterate(self.eval(g.iter, env_k)):
+                e2 = Env(env_k.scope, env_k)
+                self.assign(g.target, x, e2)
+                if all(self.truth(self.eval(c, e2)) for c in g.ifs):
+                    rec(k + 1, e2)
+        rec(0, env)
+        return out
 
     def e_UnaryOp(self, e, env):
         if isinstance(e.op, (ast.Invert, ast.Not)):
@@ -448,6 +683,9 @@ class SymInterp(Interp):
                 return b_not(v) if r is None else (not r)
             if isinstance(v, bool):
                 return not v
+            if isinstance(e.op, ast.Invert) and (isinstance(v, CondArr) or (isinstance(v, Arr) and v.isbool)
+                                                 or (isinstance(v, tuple) and v and all(isinstance(x, (bool, SBool)) for x in v))):
+                return self.cond_array(v).map(b_not)
             if isinstance(e.op, ast.Not):
                 return not self.truth(v)
             raise EvalError("unary ~ of a number")
@@ -469,7 +707,46 @@ class SymInterp(Interp):
         return self.eval(e.body if self.truth(c) else e.orelse, env)
 
     def e_Attribute(self, e, env):
-        base = self.eval(e.value, env)
+        return self.attr_of(self.eval(e.value, env), e.attr, env)
+
+    def attr_of(self, base, attr, env):
+        e = ast.Attribute(value=None, attr=attr, ctx=ast.Load())
+        if isinstance(base, Record):
+            if attr in ("_replace", "_asdict"):
+                return ("method", base, attr)
+            if attr == "_fields":
+                return tuple(base.fields)
+        if isinstance(base, Obj):
+            if attr in base.attrs:
+                return base.attrs[attr]
+            m_ = base.method(attr)
+            if m_ is not None:
+                decos = [ast.unparse(d) for d in m_.node.decorator_list]
+                cl = Closure(m_, self.module_env(m_.module))
+                if "property" in decos or any(d.endswith("cached_property") for d in decos):
+                    return self.call_closure(cl, [base], {})
+                if "staticmethod" in decos:
+                    return cl
+                return PyFunc(f"{base.cls.name}.{attr}", lambda it, a, k, cl=cl, base=base: it.call_closure(cl, [base] + list(a), k))
+            for st in base.cls.node.body:          # class level constants
+                if isinstance(st, ast.Assign) and any(isinstance(t, ast.Name) and t.id == attr for t in st.targets):
+                    return self.eval(st.value, self.module_env(base.cls.module))
+            raise EvalError(f"attribute {attr} of {base!r}")
+        if isinstance(base, Closure) and attr == "defjvp":
+            # f.defjvp(rule) / @f.defjvp: the registration is recorded, the rule is returned (as jax does)
+            return PyFunc("defjvp", lambda it, a, k, base=base: (it.registrations.append((base, a[0] if a else None)), a[0] if a else None)[1])
+        if isinstance(base, Partial) and attr in ("func", "args", "keywords"):
+            return {"func": base.inner, "args": tuple(base.args), "keywords": dict(base.kwargs)}[attr]
+        if isinstance(base, dict) and attr in ("values", "copy", "update", "setdefault", "pop"):
+            return ("method", base, attr)
+        if isinstance(base, (tuple, list)) and attr in ("index", "count") and not (len(base) == 3 and base[0] == "method"):
+            return ("method", base, attr)
+        if isinstance(base, Arr) and attr == "ndim":
+            return base.ndim
+        if isinstance(base, Arr) and attr in ("astype", "squeeze", "conj", "conjugate", "prod", "mean", "diagonal", "trace", "tolist", "item"):
+            return ("method", base, attr)
+        if isinstance(base, (Dual, int, float, Fraction)) and not isinstance(base, bool) and attr in ("astype", "item", "real", "conj"):
+            return ("method", base, attr) if attr != "real" else base
         if isinstance(base, Gather) and e.attr == "T":
             return base.T()
         if isinstance(base, Gather) and e.attr == "shape":
@@ -485,6 +762,63 @@ class SymInterp(Interp):
         return Interp.e_Attribute(self, ast.Attribute(value=ast.Name(id="__b", ctx=ast.Load()), attr=e.attr, ctx=ast.Load()), env2)
 
     def call_method(self, base, name, args, kwargs):
+        if isinstance(base, Record) and name == "_replace" and not args:
+            vals = list(base.values)
+            for k, v in kwargs.items():
+                if k not in base.fields:
+                    raise EvalError(f"_replace of an unknown field {k}")
+                vals[base.fields.index(k)] = v
+            return Record(base.tname, base.fields, vals, cls=base.cls)
+        if isinstance(base, Record) and name == "_asdict" and not args:
+            return dict(zip(base.fields, base.values))
+        if isinstance(base, dict):
+            if name == "values" and not args:
+                return list(base.values())
+            if name == "copy" and not args:
+                return dict(base)
+            if name == "update":
+                for a in args:
+                    base.update(a if isinstance(a, dict) else dict(a))
+                base.update(kwargs)
+                return None
+            if name == "setdefault" and 1 <= len(args) <= 2:
+                return base.setdefault(args[0], args[1] if len(args) > 1 else None)
+            if name == "pop" and 1 <= len(args) <= 2:
+                if args[0] in base:
+                    return base.pop(args[0])
+                if len(args) > 1:
+                    return args[1]
+                raise EvalError(f"missing key {args[0]!r}")
+        if isinstance(base, (tuple, list)) and name in ("index", "count") and len(args) == 1 and isinstance(args[0], (int, str, bool, type(None))):
+            items = [x for x in base]
+            if any(not isinstance(x, (int, str, bool, type(None))) for x in items):
+                raise EvalError(f"{name} in a sequence of symbolic values")
+            return items.index(args[0]) if name == "index" else items.count(args[0])
+        if isinstance(base, (Dual, int, float, Fraction)) and name in ("astype", "item", "conj"):
+            return base
+        if isinstance(base, Arr):
+            if name in ("astype", "conj", "conjugate"):
+                return base
+            if name == "squeeze" and not args and not kwargs:
+                shp = tuple(d for d in base.shape if d != 1)
+                return base.data[0] if not shp else base.reshape(shp)
+            if name in ("prod", "mean", "trace", "diagonal") and not args and not kwargs:
+                if name == "trace":
+                    return self.np_call("trace", [base], {})
+                if name == "diagonal" and base.ndim == 2:
+                    k = min(base.shape)
+                    return Arr([base.data[i * base.shape[1] + i] for i in range(k)], (k,))
+                if name == "prod":
+                    out = Dual(1)
+                    for x in base.data:
+                        out = out * x
+                    return out
+                if name == "mean":
+                    return sum_d(base.data) / Dual(len(base.data))
+            if name == "item" and base.size() == 1:
+                return base.data[0]
+            if name == "tolist" and base.ndim == 1:
+                return list(base.data)
         if isinstance(base, tuple) and name in ("all", "any") and not args:
             return b_and(list(base)) if name == "all" else b_or(list(base))
         if isinstance(base, list) and name == "append" and len(args) == 1:
@@ -505,9 +839,32 @@ class SymInterp(Interp):
             return base
         return super().call_method(base, name, args, kwargs)
 
+    @staticmethod
+    def _is_newaxis(k):
+        return k is None or (isinstance(k, Ext) and k.name.split(".")[-1] == "newaxis")
+
     def getitem(self, base, key):
         if isinstance(key, Perm):
             key = (key,)
+        if isinstance(base, Arr) and (self._is_newaxis(key) or (isinstance(key, tuple) and any(self._is_newaxis(k) for k in key))):
+            # x[None, :], x[:, None], x[..., None]: index without the new axes, then insert axes of length one
+            ks = list(key) if isinstance(key, tuple) else [key]
+            if any(k is Ellipsis for k in ks):
+                i = [j for j, k in enumerate(ks) if k is Ellipsis][0]
+                fill = base.ndim - sum(1 for k in ks if not self._is_newaxis(k) and k is not Ellipsis)
+                ks = ks[:i] + [slice(None)] * fill + ks[i + 1:]
+            plain = [k for k in ks if not self._is_newaxis(k)]
+            sub = self.getitem(base, tuple(plain)) if plain else base
+            sub = self.num(sub)
+            shape, it_ = [], iter(sub.shape if isinstance(sub, Arr) else ())
+            for k in ks:
+                if self._is_newaxis(k):
+                    shape.append(1)
+                elif isinstance(k, slice):
+                    shape.append(next(it_))
+            shape += list(it_)
+            data = sub.data if isinstance(sub, Arr) else [sub]
+            return Arr(list(data), tuple(shape))
         if isinstance(key, tuple) and any(isinstance(k, Perm) for k in key):
             if not isinstance(base, Arr):
                 raise EvalError("permutation index on a non-array")
@@ -518,8 +875,50 @@ class SymInterp(Interp):
             if base.shape[pos[0]] != key[pos[0]].base.shape[0]:
                 raise EvalError("permutation length")
             return Gather(base, key[pos[0]], pos[0])
-        if isinstance(base, (Gather, Perm)):
+        if isinstance(base, CondArr):
+            pos = base.as_arr().index(self._norm_key(key))
+            if isinstance(pos, Arr):
+                return CondArr([base.data[self.as_int(x)] for x in pos.data], pos.shape)
+            return base.data[self.as_int(pos)]
+        if isinstance(key, IdxSel) or (isinstance(key, tuple) and any(isinstance(k, IdxSel) for k in key)):
+            if isinstance(key, IdxSel):
+                return self.index_select(key, self.iterate(base))
+            pos = [i for i, k in enumerate(key) if isinstance(k, IdxSel)]
+            if len(pos) != 1 or not isinstance(base, Arr):
+                raise EvalError("unsupported symbolic index")
+            i = pos[0]
+            items = [self.getitem(base, tuple(key[:i]) + (k,) + tuple(key[i + 1:])) for k in range(base.shape[i])]
+            return self.index_select(key[i], items)
+        if isinstance(base, Perm):
+            if isinstance(key, (int, Dual, Fraction)) and not isinstance(key, bool):
+                k = self.as_int(key)
+                n = base.base.shape[0]
+                if not -n <= k < n:
+                    raise EvalError("index out of range")
+                return PermElem(base, k % n)
+            raise EvalError("slice of a sorting permutation")
+        if isinstance(base, Gather):
+            # one entry of a symbolically sorted array: a nested selection on the order of the keys
+            n = base.perm.base.shape[0]
+            if isinstance(key, (int, Dual, Fraction)) and not isinstance(key, bool) and base.axis == 0:
+                return self.gather_items(base)[self.as_int(key)]
+            if isinstance(key, tuple) and len(key) == 2 and base.arr.ndim == 2 and isinstance(key[base.axis], (int, Dual, Fraction)) \
+                    and isinstance(key[1 - base.axis], slice) and key[1 - base.axis] == slice(None):
+                items = self.gather_items(base if base.axis == 0 else base.T())
+                return items[self.as_int(key[base.axis])]
             raise EvalError("element of a symbolically sorted array")
+        if isinstance(key, PermElem) or (isinstance(key, tuple) and any(isinstance(k, PermElem) for k in key)):
+            if not isinstance(base, (Arr, tuple, list)):
+                raise EvalError("symbolic index into a non-sequence")
+            if isinstance(key, PermElem):
+                items = self.iterate(base)
+                if len(items) != key.perm.base.shape[0]:
+                    raise EvalError("permutation length")
+                return self.sorted_items(key.perm, items)[key.k]
+            if isinstance(base, Arr) and base.ndim == 2 and len(key) == 2 and isinstance(key[1], PermElem) and isinstance(key[0], slice) and key[0] == slice(None):
+                cols = self.iterate(base.T())
+                return self.sorted_items(key[1].perm, cols)[key[1].k]
+            raise EvalError("unsupported symbolic index")
         if isinstance(base, Arr) and isinstance(key, tuple) and any(isinstance(k, Arr) for k in key):
             # one constant integer array among full slices: take along that axis
             pos = [i for i, k in enumerate(key) if isinstance(k, Arr)]
@@ -532,6 +931,99 @@ class SymInterp(Interp):
                     out = Arr([x for i in ix for x in rows.index(i).data], (len(ix), rows.shape[1]))
                     return out if ax == 0 else out.T()
         return super().getitem(base, key)
+
+    def cond_array(self, v) -> CondArr:
+        if isinstance(v, CondArr):
+            return v
+        if isinstance(v, (bool, SBool)):
+            return CondArr([v], ())
+        if isinstance(v, Arr):
+            cs = [rat_const(x.a) if isinstance(x, Dual) else None for x in v.data]
+            if all(c in (0, 1) for c in cs):
+                return CondArr([c == 1 for c in cs], v.shape)
+            raise EvalError("a numeric array used as an array of conditions")
+        if isinstance(v, (tuple, list)) and all(isinstance(x, (bool, SBool)) for x in v):
+            return CondArr(list(v), (len(v),))
+        if isinstance(v, (tuple, list)):
+            rows = [self.cond_array(x) for x in v]
+            if rows and all(r.shape == rows[0].shape for r in rows):
+                return CondArr([x for r in rows for x in r.data], (len(rows),) + rows[0].shape)
+        raise EvalError(f"not an array of conditions: {v!r}")
+
+    def where_array(self, c: CondArr, a, b):
+        """np.where with an array of conditions: element-wise selection with numpy broadcasting"""
+        a, b = self.num(a), self.num(b)
+        sa, sb = (a.shape if isinstance(a, Arr) else ()), (b.shape if isinstance(b, Arr) else ())
+        shp = broadcast_shape(broadcast_shape(c.shape, sa), sb)
+        cs = broadcast_data(c.data, c.shape, shp)
+        xs = broadcast_data(a.data if isinstance(a, Arr) else [a], sa, shp)
+        ys = broadcast_data(b.data if isinstance(b, Arr) else [b], sb, shp)
+        out = [self.select(cc, x, y) for cc, x, y in zip(cs, xs, ys)]
+        return Arr(out, shp) if shp else out[0]
+
+    def index_select(self, idx: IdxSel, items):
+        """items[idx] for a symbolic index: nested selection over its cases"""
+        cases = [(c, k) for c, k in idx.cases if c is not False]
+        if not cases:
+            raise EvalError("symbolic index without cases")
+        for c, k in cases:
+            if not -len(items) <= k < len(items):
+                raise EvalError("index out of range")
+        r = items[cases[-1][1]]
+        for c, k in reversed(cases[:-1]):
+            r = self.select(c, items[k], r)
+        return r
+
+    def arg_extreme(self, x: Arr, largest=True) -> IdxSel:
+        """np.argmax / np.argmin of a vector: index of the FIRST extreme entry"""
+        n = x.shape[0]
+        if x.ndim != 1 or n > 4:
+            raise EvalError("argmax / argmin of an array that is not a short vector")
+        cases = []
+        for i in range(n):
+            cs = []
+            for j in range(n):
+                if j == i:
+                    continue
+                # i wins against j: strictly better than every earlier entry, at least as good as every later one
+                lt = self.compare(x.data[j], ast.Lt(), x.data[i]) if largest else self.compare(x.data[i], ast.Lt(), x.data[j])
+                ge = b_not(self.compare(x.data[i], ast.Lt(), x.data[j]) if largest else self.compare(x.data[j], ast.Lt(), x.data[i]))
+                cs.append(lt if j < i else ge)
+            cases.append((b_and(cs), i))
+        return IdxSel(cases)
+
+    def sorted_items(self, perm: Perm, items):
+        """`items` taken in the ascending (stable) order of the keys perm.base, each as a nested selection on the comparisons of the keys"""
+        n = len(items)
+        keys = list(perm.base.data)
+        if n != len(keys):
+            raise EvalError("permutation length")
+        if n == 1:
+            return list(items)
+        if n > 3:
+            raise EvalError("element of a symbolically sorted array of more than three entries")
+        orders = list(itertools.permutations(range(n)))
+        conds = []
+        for od in orders:
+            cs = []
+            for t in range(n - 1):
+                i, j = od[t], od[t + 1]
+                # i before j: key_i < key_j, or equal keys and i < j (argsort is stable)
+                cs.append(b_not(self.compare(keys[j], ast.Lt(), keys[i])) if i < j else self.compare(keys[i], ast.Lt(), keys[j]))
+            conds.append(b_and(cs))
+        out = []
+        for k in range(n):
+            r = items[orders[-1][k]]
+            for od, c in reversed(list(zip(orders[:-1], conds[:-1]))):
+                r = self.select(c, items[od[k]], r)
+            out.append(r)
+        return out
+
+    def gather_items(self, g: Gather):
+        """the items along the first axis of a sorted array (axis 0 gathers only)"""
+        if g.axis != 0:
+            raise EvalError("iteration over an array sorted along another axis")
+        return self.sorted_items(g.perm, self.iterate(g.arr))
 
     # ---- selects
     def select(self, c, a, b):
@@ -546,6 +1038,14 @@ class SymInterp(Interp):
         return a if self.truth(c) else b
 
     def _sel(self, c, a, b):
+        if isinstance(a, Record) and isinstance(b, Record) and list(a.fields) == list(b.fields):
+            return Record(a.tname, a.fields, [self._sel(c, x, y) for x, y in zip(a.values, b.values)], cls=a.cls)
+        if isinstance(a, Record) and isinstance(b, (tuple, list)) and len(b) == len(a.values):
+            return Record(a.tname, a.fields, [self._sel(c, x, y) for x, y in zip(a.values, b)], cls=a.cls)
+        if isinstance(b, Record) and isinstance(a, (tuple, list)) and len(a) == len(b.values):
+            return Record(b.tname, b.fields, [self._sel(c, x, y) for x, y in zip(a, b.values)], cls=b.cls)
+        if isinstance(a, dict) and isinstance(b, dict) and list(a) == list(b):
+            return {k: self._sel(c, a[k], b[k]) for k in a}
         if isinstance(a, (tuple, list)) and isinstance(b, (tuple, list)) and len(a) == len(b):
             return tuple(self._sel(c, x, y) for x, y in zip(a, b))
         if isinstance(a, Arr) or isinstance(b, Arr):
@@ -570,6 +1070,9 @@ class SymInterp(Interp):
             def part(x, y):
                 if _A.equal(x, y):
                     return x
+                if rat_const(y) is None and _A.equal(x, -y):
+                    # where(c, -z, z) is z * where(c, -1, 1): a selection of the sign, the same atom as an explicit sign factor
+                    return _A.norm(y * part(Rat(Poly.const(Fraction(-1))), Rat(Poly.const(Fraction(1)))))
                 key = f"{c.key}?{x!r}:{y!r}"
                 return _A.atom(self._atom(self.sel, self._sel_key, key, (c, x, y), "sel"))
             return Dual(part(a.a, b.a), part(a.b, b.b))
@@ -629,14 +1132,70 @@ class SymInterp(Interp):
     def assign(self, t, v, env):
         if isinstance(t, ast.Name):
             v = self._bound(t.id, v)
-        elif isinstance(t, (ast.Tuple, ast.List)) and isinstance(v, Arr) and v.ndim >= 1:
-            v = [v.index(i) for i in range(v.shape[0])]       # unpacking an array iterates over its first axis
+        elif isinstance(t, (ast.Tuple, ast.List)):
+            if not isinstance(v, (tuple, list)) or (len(v) == 3 and v[0] == "method"):
+                v = self.iterate(v)           # unpacking an array iterates over its first axis; records, sorted arrays
+            stars = [i for i, x in enumerate(t.elts) if isinstance(x, ast.Starred)]
+            if stars:
+                if len(stars) != 1 or len(v) < len(t.elts) - 1:
+                    raise EvalError("unpack width")
+                i = stars[0]
+                tail = len(t.elts) - 1 - i
+                vs = list(v)
+                for a, b in zip(t.elts[:i], vs[:i]):
+                    self.assign(a, b, env)
+                self.assign(t.elts[i].value, vs[i:len(vs) - tail], env)
+                for a, b in zip(t.elts[i + 1:], vs[len(vs) - tail:]):
+                    self.assign(a, b, env)
+                return
+        elif isinstance(t, ast.Attribute):
+            base = self.eval(t.value, env)
+            if not isinstance(base, Obj):
+                raise EvalError("store to an attribute")
+            base.attrs[t.attr] = v
+            return
         super().assign(t, v, env)
 
     def stmt(self, st, env):
         prev, self._cur = self._cur, st
         try:
-            super().stmt(st, env)
+            if isinstance(st, ast.For):
+                for x in self.iterate(self.eval(st.iter, env)):
+                    self.assign(st.target, x, env)
+                    self.block(st.body, env)
+                self.block(st.orelse, env)
+            elif isinstance(st, ast.While):
+                n = 0
+                while self.truth(self.eval(st.test, env)):
+                    n += 1
+                    if n > self.max_loop:
+                        raise EvalError("python while loop does not terminate within the interpretation bound")
+                    self.block(st.body, env)
+            elif isinstance(st, ast.AnnAssign):
+                if st.value is not None:
+                    self.assign(st.target, self.eval(st.value, env), env)
+            elif isinstance(st, ast.If):
+                c = self.eval(st.test, env)
+                self.block(st.body if self.truth(c) else st.orelse, env)
+            elif isinstance(st, ast.With):
+                # context managers of the numerical code (named scopes, precision / debug contexts) do not change values
+                for item in st.items:
+                    if item.optional_vars is not None:
+                        try:
+                            self.assign(item.optional_vars, self.eval(item.context_expr, env), env)
+                        except EvalError as ex:
+                            for nme in ast.walk(item.optional_vars):
+                                if isinstance(nme, ast.Name):
+                                    env.vars[nme.id] = Unknown(str(ex))
+                self.block(st.body, env)
+            elif isinstance(st, ast.Try):
+                self.block(st.body, env)
+                self.block(st.orelse, env)
+                self.block(st.finalbody, env)
+            elif isinstance(st, (ast.Global, ast.Nonlocal)):
+                raise EvalError("global / nonlocal rebinding")
+            else:
+                super().stmt(st, env)
         finally:
             self._cur = prev
         if isinstance(st, ast.AugAssign) and isinstance(st.target, ast.Name) and st.target.id in env.vars:
@@ -654,16 +1213,31 @@ class SymInterp(Interp):
                     raise EvalError("expansion too large")
         return simplify(_A.norm(r))
 
-    def specialise(self, r: Rat, pt, cache=None, depth=12) -> Rat:
-        """the value in the situation of the numeric point `pt`: every select atom is replaced by the branch its condition picks there"""
+    def specialise(self, r: Rat, pt, cache=None, depth=12, piecewise=False) -> Rat:
+        """the value in the situation of the numeric point `pt`: every select atom is replaced by the branch its condition picks there;
+        with `piecewise` also min / max / |.| / sign of scalars are replaced by the piece that is active at the point"""
         cache = {} if cache is None else cache
+        pw = ("min", "max", "abs", "sign") if piecewise else ()
         for _ in range(depth):
-            todo = [a for a in r.atoms() if a in self.sel]
+            todo = [a for a in r.atoms() if a in self.sel or (a in self.fn and self.fn[a][0] in pw and all(isinstance(v, Dual) for v in self.fn[a][1]))]
             if not todo:
                 break
             for a in todo:
-                c, x, y = self.sel[a]
-                r = subst(r, a, x if self.numeric_cond(c, pt, cache) else y)
+                if a in self.sel:
+                    c, x, y = self.sel[a]
+                    r = subst(r, a, x if self.numeric_cond(c, pt, cache) else y)
+                    continue
+                name, args = self.fn[a]
+                nums = [self.numeric(v.a, pt, cache) for v in args]
+                if any(v != v for v in nums):
+                    raise EvalError("not evaluable at the sample point")
+                if name in ("min", "max"):
+                    k = nums.index(min(nums) if name == "min" else max(nums))
+                    r = subst(r, a, args[k].a)
+                elif name == "abs":
+                    r = subst(r, a, args[0].a if nums[0] >= 0 else -args[0].a)
+                else:
+                    r = subst(r, a, Rat(Poly.const(Fraction((nums[0] > 0) - (nums[0] < 0)))))
         return simplify(_A.norm(r))
 
     # ---- dependencies between registered atoms
@@ -827,27 +1401,277 @@ class SymInterp(Interp):
             return it.fn_atom(fname, xs)
         self.special[qualname] = f
 
+    def call_closure(self, f: Closure, args, kwargs):
+        """python calling convention in full: positional / keyword / default / *args / **kwargs / keyword-only parameters"""
+        sc = f.scope
+        q = sc.qualname
+        if self.call_hook is not None:
+            self.call_hook(self, f, args, kwargs)
+        if q in self.special:
+            return self.special[q](self, args, kwargs)
+        self.depth += 1
+        if self.depth > self.max_depth:
+            self.depth -= 1
+            raise EvalError("recursion too deep")
+        self.stack.append(q)
+        try:
+            self.visited.add(q)
+            env = Env(sc, f.env)
+            a = sc.node.args
+            ps = sc.params()
+            if len(args) > len(ps):
+                if a.vararg is None:
+                    raise EvalError(f"too many arguments for {q}")
+                env.vars[a.vararg.arg] = tuple(args[len(ps):])
+            elif a.vararg is not None:
+                env.vars[a.vararg.arg] = ()
+            for p_, v in zip(ps, args):
+                env.vars[p_] = v
+            named = set(ps) | set(sc.kwonly())
+            extra = {}
+            for k, v in kwargs.items():
+                if k in named:
+                    if k in env.vars:
+                        raise EvalError(f"multiple values for argument {k} of {q}")
+                    env.vars[k] = v
+                elif a.kwarg is not None:
+                    extra[k] = v
+                else:
+                    raise EvalError(f"unexpected keyword argument {k} of {q}")
+            if a.kwarg is not None:
+                env.vars[a.kwarg.arg] = extra
+            for p_ in ps + sc.kwonly():
+                if p_ not in env.vars:
+                    d = sc.default_of(p_)
+                    if d is None:
+                        raise EvalError(f"missing argument {p_} of {q}")
+                    env.vars[p_] = self.eval(d, f.env)
+            # parameters are names the programmer gave to quantities, like locals (recorded; abstracted when the interpreter abstracts)
+            for p_ in ps + sc.kwonly():
+                env.vars[p_] = self._bound(p_, env.vars[p_])
+            if sc.kind == "lambda":
+                return self.eval(sc.node.body, env)
+            try:
+                self.block(sc.node.body, env)
+            except ReturnSignal as r:
+                return r.value
+            return None
+        finally:
+            self.stack.pop()
+            self.depth -= 1
+
+    def _class_record(self, qual, args, kwargs):
+        """instance of a NamedTuple / dataclass style class: fields are the annotated class attributes, with their defaults"""
+        csc = self.repo.find(qual)
+        if csc is None or any(c.kind == "function" and c.name in ("__init__", "__new__", "__post_init__") for c in csc.children):
+            return None
+        fields, defaults = [], {}
+        for st in csc.node.body:
+            if isinstance(st, ast.AnnAssign) and isinstance(st.target, ast.Name):
+                fields.append(st.target.id)
+                if st.value is not None:
+                    defaults[st.target.id] = st.value
+        if not fields or len(args) > len(fields):
+            return None
+        vals = dict(zip(fields, args))
+        for k, v in kwargs.items():
+            if k not in fields:
+                raise EvalError(f"unknown field {k} of {qual}")
+            if k in vals:
+                raise EvalError(f"multiple values for field {k} of {qual}")
+            vals[k] = v
+        for k in fields:
+            if k not in vals:
+                if k not in defaults:
+                    raise EvalError(f"missing field {k} of {qual}")
+                vals[k] = self.eval(defaults[k], self.module_env(csc.module))
+        return Record(csc.name, fields, [vals[k] for k in fields], cls=csc)
+
+    def _builtin(self, name, args, kwargs):
+        """python builtins / functools / itertools / operator on interpreter values; NotImplemented when the name is not one of them"""
+        it = self.iterate
+        if name == "builtins.zip":
+            return [tuple(t) for t in zip(*[it(a) for a in args])]
+        if name == "builtins.enumerate" and args:
+            start = self.as_int(kwargs.get("start", args[1] if len(args) > 1 else 0))
+            return [(i + start, x) for i, x in enumerate(it(args[0]))]
+        if name == "builtins.map" and len(args) >= 2:
+            return [self.call(args[0], list(t), {}) for t in zip(*[it(a) for a in args[1:]])]
+        if name == "builtins.filter" and len(args) == 2:
+            return [x for x in it(args[1]) if self.truth(self.call(args[0], [x], {}) if args[0] is not None else x)]
+        if name == "builtins.sum" and args:
+            items = it(args[0])
+            acc = kwargs.get("start", args[1] if len(args) > 1 else 0)
+            for x in items:
+                acc = self.binop(ast.Add(), acc, x, Env(None, None))
+            return acc
+        if name in ("builtins.any", "builtins.all") and len(args) == 1:
+            items = [x if isinstance(x, (bool, SBool)) else self.truth(x) for x in it(args[0])]
+            return b_and(items) if name.endswith("all") else b_or(items)
+        if name == "builtins.len" and len(args) == 1 and isinstance(args[0], (Record, Gather, Perm)):
+            return len(it(args[0]))
+        if name in ("builtins.tuple", "builtins.list") and len(args) <= 1:
+            items = it(args[0]) if args else []
+            return tuple(items) if name.endswith("tuple") else list(items)
+        if name == "builtins.dict":
+            out = {}
+            if args:
+                out.update(args[0] if isinstance(args[0], dict) else {k: v for k, v in (tuple(it(p_)) for p_ in it(args[0]))})
+            out.update(kwargs)
+            return out
+        if name in ("builtins.max", "builtins.min") and args and not kwargs:
+            items = it(args[0]) if len(args) == 1 else list(args)
+            if not items:
+                raise EvalError("max / min of nothing")
+            if all(isinstance(x, int) and not isinstance(x, bool) for x in items):
+                return max(items) if name.endswith("max") else min(items)
+            acc = items[0]
+            for x in items[1:]:
+                acc = self.np_call("maximum" if name.endswith("max") else "minimum", [acc, x], {})
+            return acc
+        if name in ("builtins.float", "builtins.int", "builtins.round", "builtins.complex") and len(args) == 1:
+            return args[0]
+        if name == "builtins.bool" and len(args) == 1:
+            return args[0] if isinstance(args[0], (bool, SBool)) else self.truth(args[0])
+        if name == "builtins.getattr" and len(args) in (2, 3) and isinstance(args[1], str):
+            try:
+                return self.attr_of(args[0], args[1], Env(None, None))
+            except EvalError:
+                if len(args) == 3:
+                    return args[2]
+                raise
+        if name == "builtins.isinstance" and len(args) == 2:
+            kinds = args[1] if isinstance(args[1], (tuple, list)) else (args[1],)
+            res = False
+            for k in kinds:
+                if not isinstance(k, Ext):
+                    raise EvalError("isinstance with a class of the repository")
+                last = k.name.split(".")[-1]
+                table = {"tuple": (tuple, Record), "list": (list,), "dict": (dict,), "str": (str,), "bool": (bool,),
+                         "int": (int,), "float": (float, Fraction)}
+                if k.name.startswith("builtins.") and last in table:
+                    v = args[0]
+                    if isinstance(v, tuple) and len(v) == 3 and v[0] == "method":
+                        continue
+                    if isinstance(v, bool) and last in ("int", "float"):
+                        continue
+                    res = res or isinstance(v, table[last])
+                else:
+                    raise EvalError(f"isinstance with {k.name}")
+            return res
+        if name == "functools.partial" and args:
+            return Partial(args[0], args[1:], kwargs)
+        if name == "functools.reduce" and len(args) in (2, 3):
+            items = it(args[1])
+            if len(args) == 3:
+                acc = args[2]
+            elif items:
+                acc, items = items[0], items[1:]
+            else:
+                raise EvalError("reduce of an empty sequence")
+            for x in items:
+                acc = self.call(args[0], [acc, x], {})
+            return acc
+        if name in ("itertools.product", "itertools.combinations", "itertools.permutations", "itertools.chain",
+                    "itertools.combinations_with_replacement") and not (kwargs.keys() - {"repeat"}):
+            last = name.split(".")[-1]
+            if last == "product":
+                return [tuple(t) for t in itertools.product(*[it(a) for a in args], repeat=self.as_int(kwargs.get("repeat", 1)))]
+            if last == "chain":
+                return [x for a in args for x in it(a)]
+            if last == "permutations":
+                return [tuple(t) for t in itertools.permutations(it(args[0]), *(self.as_int(a) for a in args[1:]))]
+            f_ = itertools.combinations if last == "combinations" else itertools.combinations_with_replacement
+            return [tuple(t) for t in f_(it(args[0]), self.as_int(args[1]))]
+        if name == "itertools.chain.from_iterable" and len(args) == 1:
+            return [x for a in it(args[0]) for x in it(a)]
+        if name.startswith("operator.") and not kwargs:
+            op = name.split(".")[-1]
+            table = {"add": ast.Add, "sub": ast.Sub, "mul": ast.Mult, "truediv": ast.Div, "matmul": ast.MatMult, "pow": ast.Pow}
+            if op in table and len(args) == 2:
+                return self.binop(table[op](), args[0], args[1], Env(None, None))
+            if op == "neg" and len(args) == 1:
+                return self.neg(args[0])
+            if op == "getitem" and len(args) == 2:
+                return self.getitem(args[0], args[1])
+            if op == "itemgetter" and args:
+                keys = list(args)
+                return PyFunc("itemgetter", lambda it_, a, k, keys=keys: it_.getitem(a[0], keys[0]) if len(keys) == 1 else tuple(it_.getitem(a[0], kk) for kk in keys))
+            if op == "attrgetter" and len(args) == 1 and isinstance(args[0], str):
+                return PyFunc("attrgetter", lambda it_, a, k, nm=args[0]: it_.attr_of(a[0], nm, Env(None, None)))
+        return NotImplemented
+
     def call(self, f, args, kwargs):
+        if isinstance(f, Obj):
+            m_ = f.method("__call__")
+            if m_ is None:
+                raise EvalError(f"call of {f!r}")
+            return self.call_closure(Closure(m_, self.module_env(m_.module)), [f] + list(args), kwargs)
         if isinstance(f, VmapAxes):
             axes = f.axes
             if not isinstance(axes, (tuple, list)):
-                axes = [axes] * len(args)
+                # one axis for every argument; python scalars / callables are passed through unmapped (lenient reading of in_axes=0)
+                axes = [axes if isinstance(a, Arr) else None for a in args]
             if len(axes) != len(args) or kwargs:
                 raise EvalError("vmap in_axes")
             mapped = [i for i, ax in enumerate(axes) if ax is not None]
-            if any(axes[i] != 0 for i in mapped) or not mapped or any(not isinstance(args[i], Arr) for i in mapped):
-                raise EvalError("vmap over a non-leading axis")
+            if not mapped or any(not isinstance(args[i], Arr) for i in mapped):
+                raise EvalError("vmap without a mapped array argument")
+            args = list(args)
+            for i in mapped:
+                ax = self.as_int(axes[i])
+                ax = ax + args[i].ndim if ax < 0 else ax
+                if ax == 1 and args[i].ndim == 2:
+                    args[i] = args[i].T()          # mapping over the columns is mapping over the rows of the transpose
+                elif ax != 0:
+                    raise EvalError("vmap over an inner axis of an array with more than two axes")
             k = args[mapped[0]].shape[0]
             outs = [self.call(f.fn, [self.getitem(a, j) if i in mapped else a for i, a in enumerate(args)], {}) for j in range(k)]
-            outs = [self.num(o) for o in outs]
-            if all(isinstance(o, Dual) for o in outs):
-                return Arr(outs, (k,))
-            if all(isinstance(o, Arr) and o.shape == outs[0].shape for o in outs):
-                return Arr([x for o in outs for x in o.data], (k,) + tuple(outs[0].shape))
-            raise EvalError("vmap output")
+            out_ax = getattr(f, "out_axes", 0)
+
+            def stack(items):
+                if all(isinstance(o, (tuple, list)) and not (len(o) == 3 and o[0] == "method") for o in items) and len({len(o) for o in items}) == 1:
+                    return tuple(stack([o[t] for o in items]) for t in range(len(items[0])))
+                items = [self.num(o) for o in items]
+                if all(isinstance(o, Dual) for o in items):
+                    return Arr(items, (k,))
+                if all(isinstance(o, Arr) and o.shape == items[0].shape for o in items):
+                    res = Arr([x for o in items for x in o.data], (k,) + tuple(items[0].shape))
+                    if out_ax in (1, -1) and res.ndim == 2:
+                        return res.T()
+                    if out_ax != 0:
+                        raise EvalError("vmap out_axes")
+                    return res
+                raise EvalError("vmap output")
+            return stack(outs)
         return super().call(f, args, kwargs)
 
     def call_ext(self, name, args, kwargs):
+        if name in self.ext_special:
+            return self.ext_special[name](self, args, kwargs)
+        if name.split(".")[0] in ("builtins", "functools", "itertools", "operator"):
+            r = self._builtin(name, args, kwargs)
+            if r is not NotImplemented:
+                return r
+        if name.startswith("class:"):
+            q = name[len("class:"):]
+            if q.endswith("._make") and len(args) == 1:
+                r = self._class_record(q[:-len("._make")], self.iterate(args[0]), {})
+            else:
+                r = self._class_record(q, args, kwargs)
+            if r is not None:
+                return r
+            csc = self.repo.find(q)
+            if csc is not None and csc.kind == "class":
+                obj = Obj(csc)
+                init = obj.method("__init__")
+                if init is not None:
+                    self.call_closure(Closure(init, self.module_env(csc.module)), [obj] + list(args), kwargs)
+                elif args or kwargs:
+                    raise EvalError(f"arguments for a class without __init__: {q}")
+                return obj
+        if name in ("jax.jit", "jax.checkpoint", "jax.remat", "jax.named_call") and args:
+            return args[0]
         if name == "jax.lax.cond" and args and isinstance(args[0], SBool):
             c = args[0]
             r = self.resolve(c)
@@ -855,13 +1679,45 @@ class SymInterp(Interp):
             if r is None:
                 return self.select(c, self.call(args[1], ops, {}), self.call(args[2], ops, {}))
             return self.call(args[1] if r else args[2], ops, {})
-        if name == "jax.vmap" and (len(args) > 1 or "in_axes" in kwargs or "out_axes" in kwargs):
+        if name == "jax.vmap" and args:
             axes = kwargs.get("in_axes", args[1] if len(args) > 1 else 0)
-            if kwargs.get("out_axes", args[2] if len(args) > 2 else 0) != 0:
-                raise EvalError("vmap with out_axes")
-            return VmapAxes(args[0], axes)
+            out_axes = kwargs.get("out_axes", args[2] if len(args) > 2 else 0)
+            if not isinstance(out_axes, int) or isinstance(out_axes, bool):
+                raise EvalError("vmap with structured out_axes")
+            return VmapAxes(args[0], axes, out_axes)
         if name == "jax.lax.select" and len(args) == 3:
-            return self.select(args[0], args[1], args[2])
+            return self.np_call("where", list(args), {})
+        if name == "jax.lax.select_n" and len(args) == 3:
+            return self.np_call("where", [args[0], args[2], args[1]], {})
+        if name == "jax.lax.switch" and len(args) >= 2:
+            branches = self.iterate(args[1])
+            idx = args[0]
+            if isinstance(idx, IdxSel):
+                return self.index_select(idx, [self.call(b_, list(args[2:]), {}) for b_ in branches])
+            k = min(max(self.as_int(idx), 0), len(branches) - 1)
+            return self.call(branches[k], list(args[2:]), {})
+        if name == "jax.lax.fori_loop" and len(args) == 4:
+            lo, hi = self.as_int(args[0]), self.as_int(args[1])
+            if hi - lo > self.max_loop:
+                raise EvalError("fori_loop too long to unroll")
+            carry = args[3]
+            for i in range(lo, hi):
+                carry = self.call(args[2], [i, carry], {})
+            return carry
+        if name == "jax.lax.scan" and len(args) >= 3 and not kwargs:
+            xs = args[2]
+            items = self.iterate(xs) if xs is not None else None
+            if items is None or len(items) > self.max_loop:
+                raise EvalError("scan that cannot be unrolled")
+            carry, ys = args[1], []
+            for x in items:
+                carry, y = self.iterate(self.call(args[0], [carry, x], {}))
+                ys.append(y)
+            if ys and all(isinstance(y, (Dual, int, float, Fraction)) and not isinstance(y, bool) for y in ys):
+                ys = Arr([self.num(y) for y in ys], (len(ys),))
+            elif ys and all(isinstance(y, Arr) and y.shape == ys[0].shape for y in ys):
+                ys = Arr([v for y in ys for v in y.data], (len(ys),) + tuple(ys[0].shape))
+            return (carry, ys)
         if name == "builtins.abs" and len(args) == 1:
             return self.np_call("abs", args, kwargs)
         if name in ("builtins.max", "builtins.min") and len(args) == 2:
@@ -884,10 +1740,33 @@ class SymInterp(Interp):
         s = rat_sign(v.a, self.positive)
         if s is not None:
             return v if s >= 0 else -v
+        # |clip(x, -c, c)| is min(|x|, c) for a constant c >= 0 (either nesting of min and max)
+        one = self._only_atom(v.a)
+        if one is not None and one in self.fn and self.fn[one][0] in ("min", "max") and rat_is_zero(v.b):
+            outer, (p_, q_) = self.fn[one][0], self.fn[one][1]
+            for cst, inner in ((p_, q_), (q_, p_)):
+                c_out = rat_const(cst.a)
+                ia = self._only_atom(inner.a)
+                if c_out is None or ia is None or ia not in self.fn or self.fn[ia][0] != ("max" if outer == "min" else "min"):
+                    continue
+                (r_, t_) = self.fn[ia][1]
+                for c2, x in ((r_, t_), (t_, r_)):
+                    c_in = rat_const(c2.a)
+                    if c_in is not None and c_in == -c_out and (c_out >= 0 if outer == "min" else c_out <= 0):
+                        return self.s_minmax("min", self.s_abs(x), Dual(abs(c_out)))
         a = v.a
         if a.d.is_const() and not a.n.is_zero() and _lead(a.n) / a.d.const_value() < 0:
             a = -a                                    # |x| == |-x|: one atom for both
         return self.fn_atom("abs", [Dual(a)])
+
+    @staticmethod
+    def _only_atom(r: Rat):
+        """the atom a when r is exactly a"""
+        if r.d.is_const() and r.d.const_value() == 1 and len(r.n.t) == 1:
+            (mono, c), = r.n.t.items()
+            if c == 1 and len(mono) == 1 and mono[0][1] == 1:
+                return mono[0][0]
+        return None
 
     @staticmethod
     def _is_half(k):
@@ -932,17 +1811,100 @@ class SymInterp(Interp):
 
     def np_call(self, fn, args, kwargs):
         n = self.num
+        if fn == "vectorize" and len(args) == 1:
+            g = args[0]
+
+            def elementwise(it, a, k, g=g):
+                vals = [it.num(v) for v in a]
+                shp = ()
+                for v in vals:
+                    shp = broadcast_shape(shp, v.shape if isinstance(v, Arr) else ())
+                cols = [broadcast_data(v.data if isinstance(v, Arr) else [v], v.shape if isinstance(v, Arr) else (), shp) for v in vals]
+                out = [it.num(it.call(g, list(t), dict(k))) for t in zip(*cols)]
+                return Arr(out, shp) if shp else out[0]
+            return PyFunc("vectorize", elementwise)
+        if fn == "expand_dims" and len(args) + len(kwargs) == 2:
+            x = n(args[0])
+            ax = self.as_int(kwargs.get("axis", args[1] if len(args) > 1 else None))
+            shp = list(x.shape) if isinstance(x, Arr) else []
+            ax = ax + len(shp) + 1 if ax < 0 else ax
+            shp.insert(ax, 1)
+            return Arr(list(x.data) if isinstance(x, Arr) else [x], tuple(shp))
+        if fn == "dtype" and len(args) == 1:
+            return Ext(f"numpy.dtype.{args[0]}" if isinstance(args[0], str) else "numpy.dtype")
+        if fn in ("float64", "float32", "int64", "int32", "double") and len(args) == 1 and not kwargs:
+            return args[0]
+        def is_conds(v):
+            return isinstance(v, CondArr) or (isinstance(v, Arr) and v.isbool) or \
+                (isinstance(v, (tuple, list)) and len(v) > 0 and not (len(v) == 3 and v[0] == "method") and all(isinstance(x, (bool, SBool, CondArr)) for x in v))
         if fn == "where" and len(args) == 3:
             c = args[0]
-            if isinstance(c, Arr):
-                raise EvalError("np.where with an array condition")
+            if is_conds(c) or isinstance(c, Arr):
+                return self.where_array(self.cond_array(c), args[1], args[2])
             return self.select(c, args[1], args[2])
-        if fn in ("logical_and", "logical_or") and len(args) == 2:
-            return b_and(list(args)) if fn == "logical_and" else b_or(list(args))
-        if fn == "logical_not" and len(args) == 1:
-            return b_not(args[0])
-        if fn in ("all", "any") and len(args) == 1 and isinstance(args[0], (list, tuple)):
-            return b_and(list(args[0])) if fn == "all" else b_or(list(args[0]))
+        if fn in ("logical_and", "logical_or", "logical_xor", "bitwise_and", "bitwise_or") and len(args) == 2:
+            op = {"logical_and": ast.BitAnd, "bitwise_and": ast.BitAnd, "logical_or": ast.BitOr, "bitwise_or": ast.BitOr, "logical_xor": ast.BitXor}[fn]()
+            if is_conds(args[0]) or is_conds(args[1]):
+                return self.binop(op, self.cond_array(args[0]), self.cond_array(args[1]), Env(None, None))
+            if all(isinstance(x, (bool, SBool)) for x in args):
+                if isinstance(op, ast.BitAnd):
+                    return b_and(list(args))
+                if isinstance(op, ast.BitOr):
+                    return b_or(list(args))
+                return b_or([b_and([args[0], b_not(args[1])]), b_and([b_not(args[0]), args[1]])])
+        if fn in ("logical_not", "invert", "bitwise_not") and len(args) == 1:
+            return self.cond_array(args[0]).map(b_not) if is_conds(args[0]) else b_not(args[0])
+        if fn in ("all", "any") and len(args) == 1 and not kwargs and (is_conds(args[0]) or isinstance(args[0], (bool, SBool))):
+            cs = self.cond_array(args[0]).data
+            return b_and(list(cs)) if fn == "all" else b_or(list(cs))
+        if fn in ("equal", "not_equal", "less", "less_equal", "greater", "greater_equal") and len(args) == 2:
+            op = {"equal": ast.Eq, "not_equal": ast.NotEq, "less": ast.Lt, "less_equal": ast.LtE, "greater": ast.Gt, "greater_equal": ast.GtE}[fn]()
+            return self.compare(args[0], op, args[1])
+        if fn == "select" and len(args) >= 2:
+            conds, choices = self.iterate(args[0]), self.iterate(args[1])
+            if len(conds) != len(choices) or not conds:
+                raise EvalError("np.select lists")
+            r = kwargs.get("default", args[2] if len(args) > 2 else 0)
+            for c, v in reversed(list(zip(conds, choices))):
+                r = self.np_call("where", [c, v, r], {})
+            return r
+        if fn in ("argmax", "argmin") and len(args) == 1 and not kwargs:
+            x = n(args[0])
+            if isinstance(x, Arr) and x.ndim == 1 and all(rat_const(v.a) is not None for v in x.data):
+                vals = [rat_const(v.a) for v in x.data]
+                return vals.index(max(vals) if fn == "argmax" else min(vals))
+            if not isinstance(x, Arr):
+                raise EvalError("argmax of a scalar")
+            return self.arg_extreme(x, largest=(fn == "argmax"))
+        if fn in ("swapaxes", "moveaxis") and len(args) == 3:
+            x = n(args[0])
+            if isinstance(x, Arr) and x.ndim == 2 and {self.as_int(args[1]) % 2, self.as_int(args[2]) % 2} == {0, 1}:
+                return x.T()
+            raise EvalError(f"{fn} of an array that is not a matrix")
+        if fn == "meshgrid" and len(args) == 2:
+            a, b = n(args[0]), n(args[1])
+            if not (isinstance(a, Arr) and isinstance(b, Arr) and a.ndim == 1 and b.ndim == 1):
+                raise EvalError("meshgrid of non-vectors")
+            ij = kwargs.get("indexing", "xy") == "ij"
+            rows, cols = (a, b) if ij else (b, a)
+            R_ = Arr([x for x in rows.data for _ in cols.data], (rows.shape[0], cols.shape[0]))
+            C_ = Arr([y for _ in rows.data for y in cols.data], (rows.shape[0], cols.shape[0]))
+            return [R_, C_] if ij else [C_, R_]
+        if fn == "linalg.inv" and len(args) == 1:
+            A_ = n(args[0])
+            if isinstance(A_, Arr) and A_.shape in ((2, 2), (3, 3)) and not A_.is_diagonal():
+                k = A_.shape[0]
+                g = lambda i, j: A_.data[i * k + j]
+                if k == 2:
+                    det = g(0, 0) * g(1, 1) - g(0, 1) * g(1, 0)
+                    adj = [g(1, 1), -g(0, 1), -g(1, 0), g(0, 0)]
+                else:
+                    cof = lambda i, j: g((i + 1) % 3, (j + 1) % 3) * g((i + 2) % 3, (j + 2) % 3) - g((i + 1) % 3, (j + 2) % 3) * g((i + 2) % 3, (j + 1) % 3)
+                    det = g(0, 0) * cof(0, 0) + g(0, 1) * cof(0, 1) + g(0, 2) * cof(0, 2)
+                    adj = [cof(j, i) for i in range(3) for j in range(3)]
+                if det.is_zero():
+                    raise EvalError("inverse of a singular matrix")
+                return Arr([x / det for x in adj], A_.shape)
         if fn in ("array", "asarray") and args and isinstance(args[0], (list, tuple)) and args[0] \
                 and all(isinstance(x, (bool, SBool)) for x in args[0]) and any(isinstance(x, SBool) for x in args[0]):
             return tuple(args[0])            # a vector of conditions stays a tuple of conditions
@@ -1001,7 +1963,11 @@ class SymInterp(Interp):
         if fn == "isclose" and len(args) >= 2:
             a, b = n(args[0]), n(args[1])
             if isinstance(a, Arr) or isinstance(b, Arr):
-                raise EvalError("isclose of arrays")
+                sa, sb = (a.shape if isinstance(a, Arr) else ()), (b.shape if isinstance(b, Arr) else ())
+                shp = broadcast_shape(sa, sb)
+                xs = broadcast_data(a.data if isinstance(a, Arr) else [a], sa, shp)
+                ys = broadcast_data(b.data if isinstance(b, Arr) else [b], sb, shp)
+                return CondArr([self.np_call("isclose", [x, y] + list(args[2:]), kwargs) for x, y in zip(xs, ys)], shp)
             if _A.equal(a.a, b.a):
                 return True
             extra = [n(kwargs[k]) for k in ("rtol", "atol") if k in kwargs] if not args[2:] else [n(x) for x in args[2:]]
@@ -1078,6 +2044,9 @@ class SymInterp(Interp):
                 inv = Arr([(Dual(1) / Am.data[i * k + i]) if i == j else Dual(0) for i in range(k) for j in range(k)], Am.shape)
                 from optilint.tensoreval import matmul as _mm
                 return _mm(inv, Bm)
+            if isinstance(Am, Arr) and Am.shape in ((2, 2), (3, 3)):
+                from optilint.tensoreval import matmul as _mm
+                return _mm(self.np_call("linalg.inv", [Am], {}), Bm)
             raise EvalError("solve with a non-diagonal matrix")
         if fn == "polyval" and len(args) == 2:
             cs, xv = n(args[0]), n(args[1])
@@ -1133,6 +2102,45 @@ class SymInterp(Interp):
         mod = scope.module
         f = self.module_value(mod, scope.name) if scope.parent is not None and scope.parent.kind == "module" else Closure(scope, self.module_env(mod))
         return self.call(f, list(args), dict(kwargs or {}))
+
+
+def tree_flatten(v):
+    """(leaves, rebuild): the leaves of a python container value (tuples, lists, dictionaries, NamedTuple / dataclass records, nested) in the
+    order jax flattens a pytree of that shape, and a function that rebuilds the same container from a list of new leaves"""
+    if isinstance(v, Record):
+        parts = [tree_flatten(x) for x in v.values]
+        make = lambda vals, v=v: Record(v.tname, v.fields, vals, cls=v.cls)
+    elif isinstance(v, Obj) and v.method("__call__") is None:
+        keys = list(v.attrs)
+        parts = [tree_flatten(v.attrs[k]) for k in keys]
+        make = lambda vals, v=v, keys=keys: Obj(v.cls, dict(zip(keys, vals)))
+    elif isinstance(v, tuple) and not (len(v) == 3 and v[0] == "method"):
+        parts = [tree_flatten(x) for x in v]
+        make = tuple
+    elif isinstance(v, list):
+        parts = [tree_flatten(x) for x in v]
+        make = list
+    elif isinstance(v, dict):
+        try:
+            keys = sorted(v)              # jax flattens dictionaries in the order of their sorted keys
+        except TypeError:
+            keys = list(v)
+        parts = [tree_flatten(v[k]) for k in keys]
+        make = lambda vals, keys=keys: dict(zip(keys, vals))
+    else:
+        return [v], (lambda leaves: leaves[0])
+    sizes = [len(p_[0]) for p_ in parts]
+    leaves = [x for p_ in parts for x in p_[0]]
+
+    def rebuild(new):
+        if len(new) != len(leaves):
+            raise EvalError("pytree size")
+        out, at = [], 0
+        for (_, rb), k in zip(parts, sizes):
+            out.append(rb(new[at:at + k]))
+            at += k
+        return make(out)
+    return leaves, rebuild
 
 
 def generic_matrix(prefix, n=3):
